@@ -10,6 +10,7 @@ import (
 	"fmt"
 	"net"
 	"net/url"
+	"sort"
 	"strconv"
 	"strings"
 )
@@ -22,7 +23,7 @@ type c01BackendCfg struct {
 
 type c01World struct {
 	tenants   []*c01Tenant
-	mode      string // backends | allowed | allowall
+	mode      string // backends | etcd (the same backends, announced as etcd keys) | allowed | allowall
 	secret    bool
 	allowHttp bool
 	aaLimit   int
@@ -60,15 +61,38 @@ func c01NormBackend(raw string) (host, norm string, http bool, ok bool) {
 	return p.Host, u, p.Scheme == "http", true
 }
 
+// a backend URL received from etcd is stored as given (standard port dropped, no slash appended) — net/url only.
+func c01NormEtcdBackend(raw string) (host, norm string, http bool, ok bool) {
+	if raw == "" {
+		return "", "", false, false
+	}
+	p, err := url.Parse(raw)
+	if err != nil {
+		return "", "", false, false
+	}
+	u := raw
+	if (p.Scheme == "http" && p.Port() == "80") || (p.Scheme == "https" && p.Port() == "443") {
+		p.Host = p.Hostname()
+		u = p.String()
+	}
+	return p.Host, u, p.Scheme == "http", true
+}
+
 func (w *c01World) ops() []string {
 	var ops []string
 	ops = append(ops, fmt.Sprintf("cfg sec=%s aa=%s aa.http=%s aa.limit=%d mode=%s allowed=%s", c01B(w.secret), c01B(w.mode == "allowall"),
 		c01B(w.allowHttp), w.aaLimit, w.mode, vEnc(strings.Join(w.allowed, ", "))))
 	switch w.mode {
-	case "backends":
-		// entries of one host in configuration order; hosts in order of first appearance
-		for _, b := range w.backends {
-			host, norm, isHttp, ok := c01NormBackend(b.Raw)
+	case "backends", "etcd":
+		// entries of one host in configuration order (etcd: in key order); hosts in order of first appearance
+		bs := append([]c01BackendCfg{}, w.backends...)
+		norm := c01NormBackend
+		if w.mode == "etcd" {
+			sort.SliceStable(bs, func(i, j int) bool { return bs[i].Id < bs[j].Id })
+			norm = c01NormEtcdBackend
+		}
+		for _, b := range bs {
+			host, norm, isHttp, ok := norm(b.Raw)
 			if !ok {
 				continue
 			}
@@ -155,6 +179,10 @@ func c01GenWorld(r *vRand) *c01World {
 		if r.chance(1, 2) {
 			// configuration order is lookup order
 			w.backends[0], w.backends[1] = w.backends[1], w.backends[0]
+		}
+		if r.chance(1, 3) {
+			// the same backends, received from etcd (keys = ids): urls are kept as written, lookup order is key order
+			w.mode = "etcd"
 		}
 	case "allowed":
 		mk("n1", []string{"cloud.example"}, "/")
@@ -503,7 +531,7 @@ func (g *c01CaseGen) configured() []*c01Tenant {
 	var ts []*c01Tenant
 	for _, t := range g.w.tenants {
 		switch g.w.mode {
-		case "backends":
+		case "backends", "etcd":
 			for _, b := range g.w.backends {
 				if b.Id == t.Name {
 					ts = append(ts, t)
